@@ -15,7 +15,8 @@ open Lean HL HL.Ast
     wsres  the workspace's resolved journal as the real server holds it (null if none)
     res    the per-URI resolved journal stored by publishDiagnostics (null if none)
     qs     queries: cursor + what the generator wrote at that position (`exp`, null = nothing)
-    impl   per query the figures parsed back from the real Hover's markdown (null = no hover)
+    impl   {figs: per query the figures parsed back from the real Hover's markdown (null = no
+           hover), wf: true}
 
   model   = the model's figures per query (compared with `impl`);
   spec_ok = every in-domain query shows the statement's aggregates over root + members once.
@@ -114,6 +115,11 @@ def judge (txs : List GTx) (exp : Json) (s : Shown) : Bool :=
 def inDomainKind (k : String) : Bool :=
   k == "account" || k == "payee" || k == "tag" || k == "tagvalue" || k == "amount"
 
+/-- Executable form of `HL.Props.C20Hover.TxWF` (header fields as parser.parseTransaction
+    leaves them). -/
+def txWF (tx : Transaction) : Bool :=
+  tx.payee == [] || tx.description == tx.payee || tx.description == tx.payee ++ [32, 124, 32] ++ tx.note
+
 def idxOfPath (paths : List String) (p : String) : Option Nat :=
   let i := paths.idxOf p
   if i < paths.length then some i else none
@@ -125,7 +131,7 @@ def hover (j : Json) : Json := Id.run do
   let ws := resolvedOf (jget j "wsres")
   let res := resolvedOf (jget j "res")
   let qs := (jarr j "qs").toList
-  let impl := (jarr j "impl").toList
+  let impl := (jarr (jget j "impl") "figs").toList
   -- model
   let model := qs.map fun q =>
     let p := match jget q "p" with
@@ -199,7 +205,13 @@ def hover (j : Json) : Json := Id.run do
           why := s!"query {i} ({k}): shown figures differ from the exact aggregates over root + members once"
     i := i + 1
   let failed := !specOk || known.size > 0
-  return Json.mkObj [("model", Json.arr model.toArray), ("spec_ok", !failed),
+  let journals := [doc] ++ (match ws with
+      | some r => r.primary.toList ++ r.files.map (·.2)
+      | none => []) ++ (match res with
+      | some r => r.primary.toList ++ r.files.map (·.2)
+      | none => [])
+  let wf := journals.all fun jr => jr.transactions.all txWF
+  return Json.mkObj [("model", Json.mkObj [("figs", Json.arr model.toArray), ("wf", wf)]), ("spec_ok", !failed),
     ("in_domain", domain), ("known", Json.arr (if specOk then known else #[])), ("why", why)]
 
 def handle (op : String) (j : Json) : Option Json :=
